@@ -83,9 +83,10 @@ def text(e):
 
 
 class FnScan:
-    def __init__(self, relfile, qual, node, module_names, in_class, is_method):
+    def __init__(self, relfile, qual, node, module_names, in_class, is_method, class_level=()):
         self.file = relfile; self.qual = qual; self.node = node; self.module_names = module_names
         self.in_class = in_class; self.is_method = is_method
+        self.class_level = set(class_level)      # names bound in the class body and never rebound on the instance
         a = node.args
         self.params = [p.arg for p in a.posonlyargs + a.args + a.kwonlyargs] + ([a.vararg.arg] if a.vararg else []) + ([a.kwarg.arg] if a.kwarg else [])
         self.sites = []
@@ -193,6 +194,22 @@ class FnScan:
     def site(self, kind, target, node):
         self.sites.append({"file": self.file, "function": self.qual, "kind": kind, "target": target, "line": node.lineno})
 
+    def through_class_level(self, e, k):
+        """a container that lives on the CLASS (bound in the class body, never rebound per instance) reached as self.<name>:
+        writing INTO it (item store, mutating call) changes it for every instance and every later call"""
+        if k != "self" or not self.class_level:
+            return k
+        b = e
+        chain = []
+        while isinstance(b, (ast.Attribute, ast.Subscript, ast.Starred)):
+            chain.append(b); b = b.value
+        if not (isinstance(b, ast.Name) and self.params and b.id == self.params[0]) or not chain:
+            return k
+        first = chain[-1]
+        if isinstance(first, ast.Attribute) and first.attr in self.class_level and len(chain) >= 2:
+            return "class"
+        return k
+
     def scan(self):
         self.collect_locals()
         name = self.node.name
@@ -227,7 +244,7 @@ class FnScan:
                     flat.append(t)
             for t in flat:
                 if isinstance(t, (ast.Attribute, ast.Subscript)):
-                    k = self.classify(root_of(t))
+                    k = self.through_class_level(t, self.classify(root_of(t)))
                     if k == "self" and name in INIT_LIKE:
                         continue
                     if k is not None:
@@ -236,6 +253,13 @@ class FnScan:
                 f = n.func
                 if isinstance(f, ast.Attribute) and f.attr in MUTATORS:
                     k = self.classify(root_of(f.value))
+                    if k == "self":
+                        # self.<class-level name>.append(...) : the receiver itself is the class-level container
+                        b = f.value
+                        while isinstance(b, (ast.Subscript, ast.Starred)):
+                            b = b.value
+                        if isinstance(b, ast.Attribute) and isinstance(b.value, ast.Name) and self.params and b.value.id == self.params[0] and b.attr in self.class_level:
+                            k = "class"
                     if k == "self" and name in INIT_LIKE:
                         continue
                     if k is not None:
@@ -267,7 +291,27 @@ def scan_file(repo, rel, only=None):
     sites = []
     nfun = 0
 
-    def walk(body, prefix, in_class):
+    def class_level_names(cdef):
+        bound = set()
+        for st in cdef.body:
+            if isinstance(st, ast.Assign):
+                for t in st.targets:
+                    if isinstance(t, ast.Name):
+                        bound.add(t.id)
+            elif isinstance(st, ast.AnnAssign) and isinstance(st.target, ast.Name) and st.value is not None:
+                bound.add(st.target.id)
+        rebound = set()
+        for fn in ast.walk(cdef):
+            if isinstance(fn, (ast.FunctionDef, ast.AsyncFunctionDef)) and fn.args.args:
+                me = fn.args.args[0].arg
+                for x in ast.walk(fn):
+                    tg = x.targets if isinstance(x, ast.Assign) else ([x.target] if isinstance(x, (ast.AnnAssign, ast.AugAssign)) else [])
+                    for t in tg:
+                        if isinstance(t, ast.Attribute) and isinstance(t.value, ast.Name) and t.value.id == me:
+                            rebound.add(t.attr)
+        return bound - rebound
+
+    def walk(body, prefix, in_class, class_level=()):
         nonlocal nfun
         for n in body:
             if isinstance(n, (ast.FunctionDef, ast.AsyncFunctionDef)):
@@ -276,15 +320,15 @@ def scan_file(repo, rel, only=None):
                     decos = [text(d) for d in n.decorator_list]
                     is_method = in_class and "staticmethod" not in decos
                     nfun += 1
-                    sites.extend(FnScan(rel, qual, n, module_names, in_class, is_method).scan())
+                    sites.extend(FnScan(rel, qual, n, module_names, in_class, is_method, class_level if is_method else ()).scan())
                 walk(n.body, qual + ".", False)
             elif isinstance(n, ast.ClassDef):
-                walk(n.body, prefix + n.name + ".", True)
+                walk(n.body, prefix + n.name + ".", True, class_level_names(n))
             elif isinstance(n, (ast.If, ast.Try, ast.With, ast.For, ast.While)):
                 for fld in ("body", "orelse", "finalbody"):
-                    walk(getattr(n, fld, []) or [], prefix, in_class)
+                    walk(getattr(n, fld, []) or [], prefix, in_class, class_level)
                 for h in getattr(n, "handlers", []) or []:
-                    walk(h.body, prefix, in_class)
+                    walk(h.body, prefix, in_class, class_level)
     walk(tree.body, "", False)
     # module-level statements that mutate at import time are not call-time state; class bodies likewise
     return sites, nfun
